@@ -2060,6 +2060,14 @@ class FileBuilder:
             cache_file_created_dirs = self._make_dirs(
                 os.path.dirname(cache_filename))
 
+            # Reserve the directories for the cache file, so that they exist
+            # in the virtual state of the file system throughout the build.
+            # Otherwise, a directory we just created would be visible in this
+            # build but virtually removed in the next one.
+            self._ensure_dirs_case(
+                self._build_dirs.started_building_file(
+                    cache_filename, cache_file_created_dirs))
+
             return_value = func(*((self,) + args), **kwargs)
             self._is_finished_build = True
             norm_cased_error_created_dirs = self._set_created_dirs(
